@@ -87,14 +87,14 @@ pub struct SimClock {
 }
 impl TimeSource for SimClock {
     fn now_in_walltime(&self) -> SystemTime {
-        ns_to_wall(lock(&self.w).wall_ns)
+        ns_to_wall(lock(&self.w).read_clock().0)
     }
     fn now_in_monotonic(&self) -> Instant {
-        ns_to_mono(lock(&self.w).mono_ns)
+        ns_to_mono(lock(&self.w).read_clock().1)
     }
     fn now(&self) -> ComplexTime {
-        let w = lock(&self.w);
-        ComplexTime { wall: ns_to_wall(w.wall_ns), mono: ns_to_mono(w.mono_ns) }
+        let (wall, mono) = lock(&self.w).read_clock();
+        ComplexTime { wall: ns_to_wall(wall), mono: ns_to_mono(mono) }
     }
 }
 
